@@ -40,6 +40,8 @@ def run(rep, tier):
     point_kernel(rep, F)
     small_pair_tables(rep, F)
     contains_point_table(rep, F)
+    from . import gt_tables
+    gt_tables.run(rep, F, "R7.10", select={"line_euclidean_length", "line_segment_distance", "point_line_euclidean_distance", "Line::dx", "Line::dy"})
 
 
 def dispatch(rep, F, D):
